@@ -66,6 +66,8 @@ type State struct {
 	defers   []*ast.DeferStmt
 	locks    map[string]string // ghost: mutex key -> 0 (free), 1 (read-locked), 2 (write-locked)
 	panicVal string            // value of the panic in flight ("" = none)
+	rangeKey, rangeKeySort string // key of the innermost map-range iteration (ghost tagging of abstract calls)
+	rangeOrd int
 }
 
 func (s *State) clone() *State {
@@ -157,6 +159,8 @@ type Fx struct {
 	errGlobals []string
 	oblSeen  map[string]int
 	inQuant  int
+	rootSpec *FuncSpec // contract of the function under verification (fx.spec changes while inlining)
+	inlineName string  // name of the function whose body is being inlined
 	namedResults bool
 	siteOrd  map[ast.Node]int
 	opaqueRet map[string]Val
